@@ -104,6 +104,7 @@ TreeHash(b) == FoldLeft(LAMBDA acc, s :
 (*  endpile closing #endpile present                                        *)
 (*  tabs   leading white space: spaces / tabs / blanks then tabs / per line *)
 (*  spacing between tokens: minimal / one blank / wider and tabs            *)
+(*  escv   which variant the escaped line breaks start with (EscVariants)    *)
 Modes  == {"braced", "piled", "mixed1", "mixed2"}
 Conts  == {"none", "stair", "hang", "esc"}
 Noises == {"none", "blank", "ws", "com0", "comD", "trail", "mix"}
@@ -128,7 +129,8 @@ Derived(mode, cont, h0) ==
    allman  |-> mode = "braced" /\ (h \div 7) % 2 = 0,
    endpile |-> (h \div 2) % 2 = 0,
    tabs    |-> TabSeq[1 + (h % 4)],
-   spacing |-> SpaceSeq[1 + ((h \div 4) % 3)]]
+   spacing |-> SpaceSeq[1 + ((h \div 4) % 3)],
+   escv    |-> (h \div 6) % 4]
 
 ModeNo == [braced |-> 0, piled |-> 1, mixed1 |-> 2, mixed2 |-> 3]
 ContNo == [none |-> 0, stair |-> 1, hang |-> 2, esc |-> 3]
@@ -146,12 +148,12 @@ Styles(tree) ==
     [] StyleSet = "full" ->      \* the whole cross product of the pile-relevant dimensions
          {[mode |-> m, cont |-> c, w |-> w, noise |-> n, fbreak |-> fb, tsemi |-> fb,
            allman |-> (m = "braced" /\ ~fb), endpile |-> fb,
-           tabs |-> TabSeq[1 + (w % 4)], spacing |-> SpaceSeq[1 + (w % 3)]] :
+           tabs |-> TabSeq[1 + (w % 4)], spacing |-> SpaceSeq[1 + (w % 3)], escv |-> w % 4] :
           m \in Modes, c \in Conts, w \in 1..8, n \in Noises, fb \in BOOLEAN}
 
 ---------------------------------------------------------------------------
 (* Rendering: tree -> physical lines [ind, toks, esc, kind]                 *)
-CodeLine(ind, toks) == [ind |-> ind, toks |-> toks, esc |-> FALSE, kind |-> "code"]
+CodeLine(ind, toks) == [ind |-> ind, toks |-> toks, esc |-> FALSE, kind |-> "code", etail |-> <<>>]
 AppendToLast(lines, toks) == [lines EXCEPT ![Len(lines)].toks = @ \o toks]
 SetEscLast(lines) == [lines EXCEPT ![Len(lines)].esc = TRUE]
 
@@ -170,13 +172,15 @@ Chunks(run, cont) ==
 (* line is lines[from] and whose nested blocks are indented to D.           *)
 (*  stair: deeper than every line of the statement so far (and than D);     *)
 (*  hang : all at D + 1 -- legal because every such break follows a `,`;    *)
-(*  esc  : anything, the line break is escaped.                             *)
+(*  esc  : anything, the line break is escaped -- every other one exactly   *)
+(*         the column of the statement's first line (a pile sibling, were   *)
+(*         the line break real).                                            *)
 MaxInd(lines, from, D) ==
   FoldLeft(LAMBDA m, i : IF lines[i].ind > m THEN lines[i].ind ELSE m, D, Ix(from, Len(lines)))
 ContIndent(cont, lines, from, D, j) ==
   CASE cont = "stair" -> MaxInd(lines, from, D) + 1
     [] cont = "hang"  -> D + 1
-    [] cont = "esc"   -> (7 * j + D) % 12
+    [] cont = "esc"   -> IF j % 2 = 1 THEN lines[from].ind ELSE (7 * j + D) % 12
     [] OTHER -> D + j
 
 (* Put a run on the lines: start a new line at indentation `at` (at >= 0)   *)
@@ -232,7 +236,7 @@ RenderStmt(stmt, B, pd, sty, lines0) ==
             lines0, Ix(1, Len(items)))
   IN st
 
-SysLine(s) == [ind |-> 0, toks |-> <<s>>, esc |-> FALSE, kind |-> "sys"]
+SysLine(s) == [ind |-> 0, toks |-> <<s>>, esc |-> FALSE, kind |-> "sys", etail |-> <<>>]
 
 RenderCode(tree, sty) ==
   IF HasPile(sty.mode)
@@ -244,22 +248,42 @@ RenderCode(tree, sty) ==
 (* every line boundary (not inside an escaped line break).                  *)
 NoiseKind(noise, i) == IF noise = "mix" THEN NoiseSeq[1 + (i % 6)] ELSE noise
 NoiseLine(kind) ==
-  CASE kind = "blank" -> <<[ind |-> 0,  toks |-> <<>>,      esc |-> FALSE, kind |-> "noise"]>>
-    [] kind = "ws"    -> <<[ind |-> 5,  toks |-> <<>>,      esc |-> FALSE, kind |-> "noise"]>>
-    [] kind = "com0"  -> <<[ind |-> 0,  toks |-> <<"--c">>, esc |-> FALSE, kind |-> "noise"]>>
-    [] kind = "comD"  -> <<[ind |-> 11, toks |-> <<"-- c">>, esc |-> FALSE, kind |-> "noise"]>>
+  CASE kind = "blank" -> <<[ind |-> 0,  toks |-> <<>>,      esc |-> FALSE, kind |-> "noise", etail |-> <<>>]>>
+    [] kind = "ws"    -> <<[ind |-> 5,  toks |-> <<>>,      esc |-> FALSE, kind |-> "noise", etail |-> <<>>]>>
+    [] kind = "com0"  -> <<[ind |-> 0,  toks |-> <<"--c">>, esc |-> FALSE, kind |-> "noise", etail |-> <<>>]>>
+    [] kind = "comD"  -> <<[ind |-> 11, toks |-> <<"-- c">>, esc |-> FALSE, kind |-> "noise", etail |-> <<>>]>>
     [] OTHER -> <<>>
 AddNoise(lines, noise) ==
   FoldLeft(LAMBDA acc, i :
              LET l  == lines[i]
                  k  == NoiseKind(noise, i)
-                 inEsc == i > 1 /\ lines[i - 1].esc
+                 inEsc == i > 1 /\ (lines[i - 1].esc \/ lines[i - 1].kind = "escblank")
                  l2 == IF k = "trail" /\ ~l.esc /\ l.kind = "code" THEN [l EXCEPT !.toks = Append(@, "--c")] ELSE l
              IN (IF inEsc THEN acc ELSE acc \o NoiseLine(k)) \o <<l2>>,
            <<>>, Ix(1, Len(lines)))
   \o NoiseLine(NoiseKind(noise, Len(lines) + 1))
 
-Render(tree, sty) == AddNoise(RenderCode(tree, sty), sty.noise)
+(* Variants of an escaped line break (formal.tex: "An escape character      *)
+(* followed by one or more white space characters causes the white space to *)
+(* be ignored"), cycling over the escaped lines of a rendering:             *)
+(*   0 `_` directly before the line break                                   *)
+(*   1 blanks / tabs between `_` and the line break                         *)
+(*   2 an empty or white-space-only line after the escaped break (still     *)
+(*     escaped white space: no newline token)                               *)
+(*   3 a second escaped break: a line that holds nothing but `_`            *)
+EscVariants(lines, v) ==
+  FoldLeft(LAMBDA acc, i :
+             LET l == lines[i]
+                 k == (i + v) % 4
+             IN IF ~l.esc \/ k = 0 THEN Append(acc, l)
+                ELSE IF k = 1 THEN Append(acc, [l EXCEPT !.etail = IF i % 2 = 0 THEN <<"s">> ELSE <<"t", "s">>])
+                ELSE IF k = 2 THEN acc \o <<l, [ind |-> IF i % 2 = 0 THEN 0 ELSE 3, toks |-> <<>>, esc |-> FALSE,
+                                                 kind |-> "escblank", etail |-> <<>>]>>
+                ELSE acc \o <<l, [ind |-> i % 5, toks |-> <<>>, esc |-> TRUE, kind |-> "esconly",
+                                  etail |-> IF i % 3 = 0 THEN <<"s">> ELSE <<>>]>>,
+           <<>>, Ix(1, Len(lines)))
+
+Render(tree, sty) == AddNoise(EscVariants(RenderCode(tree, sty), sty.escv), sty.noise)
 
 ---------------------------------------------------------------------------
 (* The characters of a line: leading white space, tokens, separators.      *)
@@ -301,7 +325,7 @@ TextLine(l, sty, n) ==
    toks |-> l.toks,
    seps |-> [i \in 1..(IF Len(l.toks) = 0 THEN 0 ELSE Len(l.toks) - 1) |->
                Sep(IF i = 1 THEN "" ELSE l.toks[i - 1], l.toks[i], l.toks[i + 1], sty.spacing, i)],
-   esc  |-> l.esc]
+   esc  |-> l.esc, etail |-> l.etail]
 Text(lines, sty) == [i \in 1..Len(lines) |-> TextLine(lines[i], sty, i)]
 
 (* the characters *)
@@ -310,7 +334,7 @@ LineChars(tx) ==
   WsChars(tx.lead)
   \o FoldLeft(LAMBDA acc, i : acc \o (IF i > 1 THEN WsChars(tx.seps[i - 1]) ELSE <<>>) \o CharsOf[tx.toks[i]],
               <<>>, Ix(1, Len(tx.toks)))
-  \o (IF tx.esc THEN <<" ", "_">> ELSE <<>>) \o <<"\n">>
+  \o (IF tx.esc THEN (IF Len(tx.toks) = 0 THEN <<"_">> ELSE <<" ", "_">>) \o WsChars(tx.etail) ELSE <<>>) \o <<"\n">>
 Chars(text) == FoldLeft(LAMBDA acc, tx : acc \o LineChars(tx), <<>>, text)
 
 ---------------------------------------------------------------------------
@@ -319,6 +343,7 @@ Chars(text) == FoldLeft(LAMBDA acc, tx : acc \o LineChars(tx), <<>>, text)
 (* line that is not a system command and does not end in an escape.         *)
 LineTokens(l) ==
   IF l.kind = "sys" THEN <<KwTok(l.toks[1], 0)>>
+  ELSE IF l.kind \in {"escblank", "esconly"} THEN <<>>       \* escaped white space
   ELSE [i \in 1..Len(l.toks) |-> TokOf(l.toks[i], IF i = 1 THEN l.ind ELSE -1)]
        \o (IF l.esc THEN <<>> ELSE <<KwTok(NL, -1)>>)
 Tokens(lines) == FoldLeft(LAMBDA acc, l : acc \o LineTokens(l), <<>>, lines)
